@@ -175,6 +175,9 @@ func typeString(t types.Type) string {
 // sortOf maps a Go type to the SMT sort of its Term representation, or ""
 // when values of the type are represented structurally (slices, pointers, structs, tuples).
 func (m *Machine) sortOf(t types.Type) Sort {
+	if typeString(t) == "reflect.Type" {
+		return SRT
+	}
 	switch u := t.Underlying().(type) {
 	case *types.Basic:
 		switch {
@@ -392,7 +395,12 @@ func (m *Machine) loadArr(st *State, obj *Obj) Term {
 	if v, ok := m.globalMem[k]; ok {
 		return v.(Term)
 	}
-	t := m.arrayInit(obj, false)
+	// the initial contents of an object are one symbol shared by all states
+	t, ok := m.initCells[k].(Term)
+	if !ok {
+		t = m.arrayInit(obj, false)
+		m.initCells[k] = t
+	}
 	st.mem[k] = t
 	return t
 }
@@ -440,6 +448,14 @@ func (m *Machine) load(st *State, p *PtrV, typ types.Type) Value {
 	if p.Idx != nil {
 		arr := m.loadArr(st, p.Obj)
 		el := Select(arr, *p.Idx)
+		if len(p.Path) > 0 {
+			return m.fieldOfElem(st, el, p, typ)
+		}
+		if el.Sort == "ClassDefV" {
+			if _, isStruct := typ.Underlying().(*types.Struct); isStruct {
+				return &StructV{Typ: typ, F: []Value{app(SStr, "cd.name", el), m.unpackSlice(st, app("StrSeq", "cd.fields", el), types.Typ[types.String])}}
+			}
+		}
 		return m.reinterpret(el, typ)
 	}
 	if st2, ok := typ.Underlying().(*types.Struct); ok && m.sortOf(typ) == "" {
@@ -605,6 +621,20 @@ func (m *Machine) globalPtr(g *ssa.Global) *PtrV {
 		pt := g.Type().(*types.Pointer).Elem()
 		obj = m.newObj("g."+g.Name(), pt, false, "")
 		m.globals[g] = obj
+		// sentinel errors of other packages (io.EOF, io.ErrShortWrite, ...): fixed non-nil values
+		if g.Pkg != m.pkg && isErrorType(pt) {
+			var t Term
+			switch g.Pkg.Pkg.Path() + "." + g.Name() {
+			case "io.EOF":
+				t = Sym("err.EOF", SErr)
+			case "io.ErrUnexpectedEOF":
+				t = Sym("err.UnexpectedEOF", SErr)
+			default:
+				t = m.syms.named("err.g."+sanitize(g.Pkg.Pkg.Path()+"."+g.Name()), SErr)
+				m.addFact(t.S, And(Not(Eq(t, Sym("err.nil", SErr))), Not(Eq(t, Sym("err.EOF", SErr)))))
+			}
+			m.globalMem[cellKey{obj, ""}] = t
+		}
 	}
 	return &PtrV{Obj: obj, Typ: g.Type()}
 }
@@ -898,10 +928,7 @@ func (m *Machine) evalValue(c *Config, v ssa.Value) (Value, []*Config) {
 			st.dead = true
 			return nil, nil
 		}
-		if p.Idx != nil {
-			m.unsup("field of array element")
-		}
-		return &PtrV{Obj: p.Obj, Path: append(append([]int{}, p.Path...), x.Field), Typ: x.Type()}, nil
+		return &PtrV{Obj: p.Obj, Idx: p.Idx, Path: append(append([]int{}, p.Path...), x.Field), Typ: x.Type()}, nil
 	case *ssa.Field:
 		switch sv := m.operand(c, x.X).(type) {
 		case *StructV:
@@ -1311,6 +1338,15 @@ func (m *Machine) convert(c *Config, x *ssa.Convert) Value {
 		np.Typ = to
 		return &np
 	}
+	// uintptr <-> unsafe.Pointer: the address as a 64-bit number
+	if t, ok := v.(Term); ok && t.Sort == SBV64 {
+		if tb, ok := tu.(*types.Basic); ok && tb.Kind() == types.UnsafePointer {
+			return t
+		}
+		if fb, ok := fu.(*types.Basic); ok && fb.Kind() == types.UnsafePointer {
+			return t
+		}
+	}
 	fb, fok := fu.(*types.Basic)
 	tb, tok := tu.(*types.Basic)
 	if fok && tok {
@@ -1548,4 +1584,18 @@ func (m *Machine) evalInit() {
 		m.globalMem[k] = v
 	}
 	m.cur = nil
+}
+
+// fieldOfElem: field of an element of an array of structs (only []ClassDef occurs).
+func (m *Machine) fieldOfElem(st *State, el Term, p *PtrV, typ types.Type) Value {
+	if el.Sort == "ClassDefV" && len(p.Path) == 1 {
+		switch p.Path[0] {
+		case 0:
+			return app(SStr, "cd.name", el)
+		case 1:
+			return m.unpackSlice(st, app("StrSeq", "cd.fields", el), types.Typ[types.String])
+		}
+	}
+	m.unsup("field %v of array element of sort %s", p.Path, el.Sort)
+	return nil
 }
